@@ -94,6 +94,7 @@ class Engine:
         self.prefix_vals = {}
         self.pending = []
         self.dcache = {}
+        self.obl_mode = "batch"   # "each": one solver query per obligation (faster for LRA bounds)
         self.refine = None         # fn(engine) -> extra constraints for replay-friendly models
         self.path_vars = {}        # name -> z3 const created on this path (for models)
 
@@ -310,10 +311,32 @@ class Engine:
         if not obls:
             return
         # fast path: all obligations without known regions in one query
-        plain = [o for o in obls if not o.known]
-        special = [o for o in obls if o.known]
         res["obligations"] += len(obls)
-        if plain:
+        # structurally identical obligations (z3 hash-conses terms) are decided once
+        seen = set()
+        uniq = []
+        ndup = 0
+        for o in obls:
+            k = (o.expr.get_id(), bool(o.known))
+            if k in seen or z3.is_true(o.expr):
+                ndup += 1
+                continue
+            seen.add(k)
+            uniq.append(o)
+        res["unsat"] += ndup
+        plain = [o for o in uniq if not o.known]
+        special = [o for o in uniq if o.known]
+        if plain and self.obl_mode == "each":
+            for o in plain:
+                r1 = self._check(z3.Not(o.expr), timeout=self.obl_timeout_ms)
+                if r1 == "unsat":
+                    res["unsat"] += 1
+                elif r1 == "unknown":
+                    res["unknown"] += 1
+                    res["errors"].append("unknown obligation: %s" % o.label)
+                else:
+                    self._record_cex([o], res, "cex")
+        elif plain:
             neg = z3.Or([z3.Not(o.expr) for o in plain])
             r = self._check(neg, timeout=self.obl_timeout_ms)
             if r == "unsat":
